@@ -6,6 +6,7 @@ import (
 	"verif/checks/c05"
 	"verif/checks/c14"
 	"verif/checks/c15"
+	"verif/checks/c19"
 )
 
 func init() {
@@ -14,4 +15,5 @@ func init() {
 	Checks["C05"] = c05.Check
 	Checks["C14"] = c14.Check
 	Checks["C15"] = c15.Check
+	Checks["C19"] = c19.Check
 }
